@@ -16,6 +16,7 @@ import (
 )
 
 type World struct {
+	lines map[string][]string
 	reachCache map[[2]*ssa.Function]bool
 	repo           string
 	fset           *token.FileSet
@@ -1052,9 +1053,9 @@ func (w *World) coneContracts(roots []*ssa.Function, excluded func(string) bool,
 	var out []*Contract
 	for _, fn := range order {
 		key := fnKey(fn)
-		if len(fn.TypeArgs()) > 0 {
-			continue // generic instantiations are covered where they are inlined
-		}
+		// an instantiation of a generic function is verified when it is the one registered under the
+		// function's key (a single instantiation in the loaded program, e.g. radixtree.Tree[rule.Route]);
+		// further instantiations are covered where they are inlined
 		if _, ok := w.funcs[key]; !ok {
 			w.funcs[key] = fn
 		} else if w.funcs[key] != fn {
@@ -1116,4 +1117,21 @@ func (w *World) reaches(from, to *ssa.Function) bool {
 	r := visit(from)
 	w.reachCache[k] = r
 	return r
+}
+
+// lineText returns the text of a source line (cached per file).
+func (w *World) lineText(file string, line int) string {
+	if w.lines == nil {
+		w.lines = map[string][]string{}
+	}
+	ls, ok := w.lines[file]
+	if !ok {
+		b, _ := os.ReadFile(file)
+		ls = strings.Split(string(b), "\n")
+		w.lines[file] = ls
+	}
+	if line < 1 || line > len(ls) {
+		return ""
+	}
+	return ls[line-1]
 }
